@@ -1,5 +1,14 @@
-use vkit::Check;
+mod c15;
+mod c18;
+mod c19;
+mod c21;
+use vkit::{Check, Level};
 fn main() {
-    let checks: &[Check] = &[];
+    let checks: &[Check] = &[
+        Check { id: "C15", level: Level::Exploration, run: c15::run },
+        Check { id: "C18", level: Level::Exploration, run: c18::run },
+        Check { id: "C19", level: Level::Exploration, run: c19::run },
+        Check { id: "C21", level: Level::Exploration, run: c21::run },
+    ];
     vkit::main(checks);
 }
